@@ -288,6 +288,29 @@ def coqchk(pid):
 # --------------------------------------------------------------------------
 # model client
 
+class Abandon:
+    """Before every few calls of an adapter, start the same library function on an earlier input, take the first item of
+    what it returns and drop the rest: a result that is a lazy iterator may legitimately be left unfinished by a caller,
+    and the next, unrelated call must not see anything of it."""
+
+    def __init__(self, every=4):
+        self.every = every
+        self.k = 0
+        self.prev = None
+
+    def before(self, f, t):
+        self.k += 1
+        if self.prev is not None and self.k % self.every == 0:
+            try:
+                it = iter(f(self.prev))
+                next(it, None)
+                del it
+            except Exception:  # noqa
+                pass
+        if isinstance(t, str) and t.strip() and (self.prev is None or '\n\n' in t or self.k % 50 == 0):
+            self.prev = t
+
+
 class Model:
     def __init__(self, scratch):
         self.scratch = scratch
@@ -433,10 +456,10 @@ class Ctx:
             return []
         mvals = self.model.run(requests)
         bad = []
-        step_again = max(1, len(requests) // 60)
+        step_again = max(1, len(requests) // 240)
         for k, (req, mv) in enumerate(zip(requests, mvals)):
             iv = impl(*req)
-            if k % step_again == 0 and k // step_again < 60:
+            if k % step_again == 0 and k // step_again < 240:
                 self._again.append((name, req, impl, norm, repr(norm(iv) if norm else iv)))
             if norm:
                 iv, mv = norm(iv), norm(mv)
@@ -477,6 +500,64 @@ class Ctx:
             if got != first:
                 st['disagreements'] += 1
                 return name, req, first, got
+        return None
+
+    def other_environments(self):
+        """re-evaluate the remembered requests in fresh interpreters started under other environments: another hash
+        seed (set and dict-of-set ordering), -O (assert statements removed), -W error (warnings raised as exceptions), the C locale without UTF-8 mode (another
+        default encoding), another working directory and time zone.  The library documents no dependence on any of
+        these, so the answers must be those of this process.  Returns (variant, request, first, got) or None."""
+        def named(f):
+            m, q = getattr(f, '__module__', None), getattr(f, '__qualname__', '')
+            return (m, q) if m and q and '<' not in q else None
+        items, firsts, reqs = [], [], []
+        for name, req, impl, norm, first in self._again:
+            a = named(impl)
+            b = named(norm) if norm else ('', '')
+            if not a or b is None:
+                continue
+            try:
+                json.dumps(req[1])
+            except (TypeError, ValueError):
+                continue
+            items.append([a[0], a[1], b[0], b[1], req[0], req[1]])
+            firsts.append(first)
+            reqs.append(req)
+        st = self.stream('repeat:other-environments')
+        if not items:
+            return None
+        fin = os.path.join(self.scratch, 'env_sample.json')
+        json.dump(items, open(fin, 'w'))
+        base = dict(os.environ)
+        variants = [('PYTHONHASHSEED=4242', {'PYTHONHASHSEED': '4242'}, [], None),
+                    ('PYTHONHASHSEED=7', {'PYTHONHASHSEED': '7'}, [], None),
+                    ('python -O', {}, ['-O'], None),
+                    ('python -W error', {}, ['-W', 'error'], None),
+                    ('PYTHONINTMAXSTRDIGITS=640', {'PYTHONINTMAXSTRDIGITS': '640'}, [], None),
+                    ('os.linesep = CRLF before the library is imported (another platform)', {'VERIF_PROBE_LINESEP': 'crlf'}, [], None),
+                    ('LC_ALL=C without UTF-8 mode', {'LC_ALL': 'C', 'LANG': 'C', 'PYTHONUTF8': '0', 'PYTHONCOERCECLOCALE': '0', 'PYTHONIOENCODING': ''}, [], None),
+                    ('working directory / and TZ=Pacific/Kiritimati', {'TZ': 'Pacific/Kiritimati'}, [], '/')]
+        st['variants'] = [v[0] for v in variants]
+        probe = os.path.join(os.path.dirname(os.path.abspath(__file__)), 'env_probe.py')
+        for vname, env, flags, cwd in variants:
+            e = dict(base)
+            e.update(env)
+            e = {k: v for k, v in e.items() if v != ''}
+            fout = os.path.join(self.scratch, 'env_out.json')
+            r = subprocess.run([sys.executable] + flags + [probe, fin, fout], env=e, cwd=cwd, stdout=subprocess.PIPE, stderr=subprocess.STDOUT, text=True, timeout=1800)
+            if r.returncode != 0:
+                st['probe_failed'] = st.get('probe_failed', 0) + 1
+                self.notes.append('environment probe %s could not run: %s' % (vname, r.stdout[-300:]))
+                continue
+            got = json.load(open(fout))
+            for req, first, g in zip(reqs, firsts, got):
+                st['cases'] += 1
+                if g.startswith('probe-error'):
+                    st['not_repeatable'] = st.get('not_repeatable', 0) + 1
+                    continue
+                if g != first:
+                    st['disagreements'] += 1
+                    return vname, req, first, g
         return None
 
     # ---- executable statement of the property on the implementation
